@@ -142,6 +142,7 @@ def P3(env, label):
     eq1 = cfg == cp
     cp.b['k'] = fdl.Config(kinds.two, x=[label, 1])    # equal but un-shared
     eq2 = cfg == cp
+    env.histories.append((label, collect_ids(cfg) + collect_ids(inner)))
     return (eq1, eq2, C.canon(cp, 'cfg-exact'))
   return prog
 
@@ -153,6 +154,7 @@ def P4(env, label):
                      c={'k': b'\\u0041', 'j': (1, None)})
     doc = serialization.dump_json(cfg)
     back = serialization.load_json(doc)
+    env.histories.append((label, collect_ids(cfg) + collect_ids(back)))
     return (short_hash(doc), C.canon(back, 'cfg-exact') == C.canon(cfg, 'cfg-exact'))
   return prog
 
@@ -164,6 +166,7 @@ def P5(env, label):
     cfg.b = 'bb'
     out = fdl.build(cfg)
     p = fdl.Partial(env.fresh_fn, b=label)
+    env.histories.append((label, collect_ids(cfg) + collect_ids(p)))
     return (out, tuple(cfg[:]), sorted(k for k in dir(cfg)), fdl.build(p)(3))
   return prog
 
